@@ -69,6 +69,20 @@ def plan(tier):
         p.append((S.replay_of(base, f"{tag};states present", status_of=status_of, shared=S.VM1_CHAIN, D=D1, O=("PASS", "FAIL")), 1, 0.3))
         if combo in ((None, "PASS", "FAIL"), ("PASS", "PASS", "PASS"), ("FAIL", "ERROR", None)) or not q:
             p.append((S.replay_of(base, f"{tag};states missing", status_of=status_of, D=D1, O=("PASS", "FAIL")), 1, 0.3))
+    # P2: replay with every subset of the setup chain still present x the second leaf passed / failed before
+    for r in range(len(S.VM1_CHAIN) + 1):
+        for sub in itertools.combinations(S.VM1_CHAIN, r):
+            for leafst in ("PASS", "FAIL"):
+                def status_of2(name, leafst=leafst):
+                    return leafst if ".tutorial2.files." in name else "PASS"
+
+                tag = "+".join(st for _, st in sub) or "none"
+                p.append((S.replay_of(base, f"PASS,{leafst};present={tag}", status_of=status_of2, shared=sub, D=D1, O=("PASS", "FAIL")), 1, 0.3))
+    if not q:
+        base2 = S.T2("net1 net2")
+        for sub in ((), S.VM1_CHAIN[:1], S.VM1_CHAIN[:2]):
+            tag = "+".join(st for _, st in sub) or "none"
+            p.append((S.replay_of(base2, f"2workers;present={tag}", shared=sub, D=(1.0, 3.0), O=("PASS", "FAIL")), 1, 0.5))
     return p
 
 
